@@ -356,10 +356,10 @@ where
     // moves to the first record positon, ignoring newline characters
     #[inline(never)]
     fn init(&mut self) -> Result<bool, Error> {
-        if let Some((line_num, pos, byte)) = self.first_byte()? {
+        if let Some((line_num, consumed, pos, byte)) = self.first_byte()? {
             if byte == b'>' {
                 self.buf_pos.start = pos;
-                self.position.byte = pos as u64;
+                self.position.byte = (consumed + pos) as u64;
                 self.position.line = line_num as u64;
                 self.search_pos = pos + 1;
                 return Ok(true);
@@ -375,8 +375,10 @@ where
         Ok(false)
     }
 
-    fn first_byte(&mut self) -> Result<Option<(usize, usize, u8)>, Error> {
+    // Returns (line number, bytes removed from the buffer so far, position in buffer, byte)
+    fn first_byte(&mut self) -> Result<Option<(usize, usize, usize, u8)>, Error> {
         let mut line_num = 0;
+        let mut consumed = 0;
 
         while fill_buf(&mut self.buf_reader)? > 0 {
             let mut pos = 0;
@@ -384,14 +386,17 @@ where
             for line in self.get_buf().split(|b| *b == b'\n') {
                 line_num += 1;
                 if !line.is_empty() && line != b"\r" {
-                    return Ok(Some((line_num, pos, line[0])));
+                    return Ok(Some((line_num, consumed, pos, line[0])));
                 }
                 pos += line.len() + 1;
                 last_line_len = line.len();
             }
-            // If an orphan '\r' is found at the end of the buffer,
-            // we need to move it to the start and re-search the line
-            self.buf_reader.consume(pos - 1 - last_line_len);
+            // The last line has no terminator yet (it may be empty or an orphan '\r'):
+            // it is moved to the start of the buffer and searched (and counted) again
+            line_num -= 1;
+            let n = pos - 1 - last_line_len;
+            consumed += n;
+            self.buf_reader.consume(n);
             self.buf_reader.make_room();
         }
         Ok(None)
